@@ -32,7 +32,7 @@ def rename (m : List (String × Val)) (o n : String) : List (String × Val) :=
 
 theorem parseFsElem_eq (K : Consts) (ts : TypeSystem) (tsIdx : Nat) (hp : Heap) (e : XElem) :
     parseFsElem K ts tsIdx hp e = (do
-  let t ← getType ts e.ty
+  let t ← getTypeExact ts e.ty
   let kids := groupKids e.kids []
   let rawAttrs : List (String × Val) := e.attrs.map (fun p => (p.1, Val.str p.2))
   let merged : List (String × Val) := kids.foldl (fun acc p => alistSet acc p.1 (Val.strs p.2)) rawAttrs
